@@ -260,7 +260,7 @@ def R5_crossing(run):
             if c is None and "map_or_else" in s and "get_tick" in s:
                 t_t = at.true_targets[0]
                 f_t = at.false_targets[0]
-                if not at.neg and ub in cfg.reach(sw, t_t) and ub not in cfg.reach(sw, f_t, cut_blocks=[at.block]):
+                if ub in cfg.reach(sw, t_t) and ub not in cfg.reach(sw, f_t, cut_blocks=[at.block]):
                     g_init = True
         run.check("R5", "cross-only-at-tick", g_price, "liquidity is changed although the step did not end exactly at the next tick's price", loc=sw.loc(), detail="next_price == next_tick_sqrt_price")
         run.check("R5", "cross-only-initialized", g_init, "liquidity is changed when crossing an uninitialised tick", loc=sw.loc(), detail="next_tick_initialized")
